@@ -101,6 +101,8 @@ def case_wt(rec, c):
         L = L0 * 2 ** n
         dr = RMAX / L
         spec = hs_spec(eta, L, dr)
+        if c.get('style'):
+            spec['style'] = c['style']
         dom = build.make_domain(spec['domain'])
         if not build.domain_ok(dom):
             rec.count('skipped_preconditions')
@@ -219,6 +221,8 @@ def case_dilute(rec, c):
     for rho in RHOS:
         spec = {'types': ['A'], 'kT': kT, 'domain': {'length': L, 'dr': dr}, 'density': {'A': rho}, 'diameter': {'A': 1.0},
                 'pairs': {'A|A': {'closure': list(CLOS[cname]), 'potential': [POTS[pname][0], dict(POTS[pname][1])], 'omega': ['SingleSite', {}]}}}
+        if c.get('style'):
+            spec['style'] = c['style']
         dom = build.make_domain(spec['domain'])
         if not build.domain_ok(dom):
             rec.count('skipped_preconditions')
@@ -292,6 +296,10 @@ def run(rec, tier, seed):
         if cl == 'MSAhc' and p not in ref.HARD_CORE_POTENTIALS:
             continue
         cases.append({'kind': 'dilute', 'potential': p, 'closure': cl, 'kT': kT, 'dr': dr})
+    # the same systems reached through an edit history (kT assigned after construction, list keys, overwrites)
+    cases.append({'kind': 'wt', 'eta': 0.3, 'levels': 4, 'style': 'edits'})
+    for p, cl in ([('LJ', 'HNC'), ('HCLJ', 'PY')] if quick else [('LJ', 'HNC'), ('HCLJ', 'PY'), ('EXP', 'MSAhc'), ('WCA', 'PY'), ('HS', 'HNC')]):
+        cases.append({'kind': 'dilute', 'potential': p, 'closure': cl, 'kT': 0.7, 'dr': 0.1, 'style': 'edits'})
     core.pmap(_worker, cases, rec)
     att, conv = rec.c.get('solve_attempted', 0), rec.c.get('solve_converged', 0)
     rec.note('attempted/converged', [att, conv])
